@@ -213,8 +213,18 @@ impl<'a> World<'a> {
                 let zero = refimpl::scalar_from_u64(0);
                 let set = [zero, one, -one, one + one, y, -y, y + one, one - y];
                 let mut xr = Xo::derive(self.plan.seed ^ salt as u64, &[0xA19]);
-                let mut pick = |honest: refimpl::RefScalar| if xr.chance(1, 2) { honest } else { set[xr.below(8) as usize] };
-                let (al, be, ga, de) = (pick(one), pick(zero), pick(one), pick(zero));
+                let pick = |xr: &mut Xo, honest: refimpl::RefScalar| if xr.chance(1, 2) { honest } else { set[xr.below(8) as usize] };
+                let named = [
+                    (zero, -y, zero, zero),       // u = -y*H, v = O: both pairing arguments degenerate
+                    (zero, zero, zero, -y),       // u = O, v = -y*sig: satisfies the equation with an identity commitment
+                    (zero, -y, zero, one),        // u = -y*H (intermediate sum is the identity), v = sig
+                    (zero, -y, one, zero),        // u = -y*H with the honest v
+                    (zero, one - y, zero, -one),  // a VALID fresh proof (x = 1 - y)
+                    (zero, one, zero, -(one + y)), // a VALID fresh proof (x = 1)
+                    (one, y, one, y),             // u + y*H, v + y*sig: invalid
+                    (one, one, one, -one),        // a VALID shift of the honest proof (x + 1)
+                ];
+                let (al, be, ga, de) = if xr.chance(1, 2) { named[xr.below(named.len() as u64) as usize] } else { (pick(&mut xr, one), pick(&mut xr, zero), pick(&mut xr, one), pick(&mut xr, zero)) };
                 let dsts = self.rec.call(self.lib, self.g, Op::Dsts, &[]).ok().unwrap_or_default();
                 let b = refimpl::Bls::draft(sig_grp(self.g));
                 if let (Some(up), Some(vp), Some(sp), Some(dst)) = (u, v, self.sig_point(), dsts.get(f.tag as usize)) {
